@@ -27,6 +27,9 @@ func vnative() bool               { return false }
 func vconcretize(x int) int       { return x }
 func vfail(msg string)            {}
 func vthorough() bool             { return false }
+func vand(a, b bool) bool         { return a && b }
+func vor(a, b bool) bool          { return a || b }
+func vimplies(a, b bool) bool     { return !a || b }
 `
 
 const rtNativeSrc = `package PKG
@@ -209,6 +212,9 @@ func vnative() bool         { return true }
 func vconcretize(x int) int { return x }
 func vfail(msg string)      { fmt.Println("VFAIL " + msg) }
 func vthorough() bool       { return os.Getenv("VERIF_TIER") == "thorough" }
+func vand(a, b bool) bool   { return a && b }
+func vor(a, b bool) bool    { return a || b }
+func vimplies(a, b bool) bool { return !a || b }
 
 // vRun runs one harness under the loaded witness and reports how it ended.
 func vRun(name string, f func()) {
